@@ -81,6 +81,10 @@ def setT (ps : List Tracker) (t : Tracker) : List Tracker :=
 
 def eraseT (ps : List Tracker) (p : Nat) : List Tracker := ps.filter (·.id != p)
 
+/-- apply `f` to the tracker of peer `p` (ids are unique in every reachable state) -/
+def modifyT (ps : List Tracker) (p : Nat) (f : Tracker → Tracker) : List Tracker :=
+  ps.map fun u => if u.id == p then f u else u
+
 /-- DefaultPeerComparator: `peerLess a b` = "a has higher priority than b". -/
 def peerLess (a b : Tracker) : Bool :=
   if a.pending.length == 0 then false
@@ -180,11 +184,11 @@ def refix (q : PTQ) (ps : List Tracker) (ord : List Nat) (p : Nat) : PTQ :=
 
 def push (q : PTQ) (p : Nat) (t : Task) : PTQ :=
   match findT q.peers p with
-  | some tr => refix q (setT q.peers (mergePending tr t)) q.order p
+  | some _ => refix q (modifyT q.peers p (mergePending · t)) q.order p
   | none =>
     let ps := q.peers ++ [{ id := p }]
     let ord := hpush (ltId ps) q.order p
-    refix q (setT ps (mergePending { id := p } t)) ord p
+    refix q (modifyT ps p (mergePending · t)) ord p
 
 /-! ### PopTasks -/
 
@@ -231,30 +235,38 @@ def pop (q : PTQ) (target : Nat) : PTQ × PopResult :=
 
 /-! ### TasksDone / Remove / ThawRound -/
 
+/-- peertracker.TaskDone: drop the (one) active entry that is this very task -/
+def doneT (uid : Nat) (tr : Tracker) : Tracker := { tr with active := tr.active.eraseP (·.uid == uid) }
+
 def done (q : PTQ) (p uid : Nat) : PTQ :=
   match findT q.peers p with
   | none => q
-  | some tr => refix q (setT q.peers { tr with active := tr.active.filter (·.uid != uid) }) q.order p
+  | some _ => refix q (modifyT q.peers p (doneT uid)) q.order p
+
+def removeT (topic : Nat) (freeze : Bool) (tr : Tracker) : Tracker :=
+  { tr with pending := tr.pending.filter (·.topic != topic),
+            freeze := if freeze then tr.freeze + 1 else tr.freeze }
 
 def remove (q : PTQ) (p topic : Nat) : PTQ :=
   match findT q.peers p with
   | none => q
   | some tr =>
     if tr.pending.any (·.topic == topic) then
-      let tr1 := { tr with pending := tr.pending.filter (·.topic != topic) }
-      if q.ignoreFreeze then refix q (setT q.peers tr1) q.order p
+      if q.ignoreFreeze then refix q (modifyT q.peers p (removeT topic false)) q.order p
       else
-        let fz := if tr.freeze == 0 && !q.frozen.contains p then q.frozen ++ [p] else q.frozen
-        refix { q with frozen := fz } (setT q.peers { tr1 with freeze := tr.freeze + 1 }) q.order p
+        let fz := if q.frozen.contains p then q.frozen else q.frozen ++ [p]
+        refix { q with frozen := fz } (modifyT q.peers p (removeT topic true)) q.order p
     else q
+
+/-- peertracker.Thaw: `freezeVal -= (freezeVal + 1) / 2` -/
+def thawT (tr : Tracker) : Tracker := { tr with freeze := tr.freeze - (tr.freeze + 1) / 2 }
 
 def thawOne (q : PTQ) (p : Nat) : PTQ :=
   match findT q.peers p with
   | none => q
   | some tr =>
-    let f := tr.freeze - (tr.freeze + 1) / 2
-    let fz := if f == 0 then q.frozen.filter (· != p) else q.frozen
-    refix { q with frozen := fz } (setT q.peers { tr with freeze := f }) q.order p
+    let fz := if (thawT tr).freeze == 0 then q.frozen.filter (· != p) else q.frozen
+    refix { q with frozen := fz } (modifyT q.peers p thawT) q.order p
 
 def thaw (q : PTQ) : PTQ := q.frozen.foldl thawOne q
 
